@@ -81,6 +81,8 @@ func (*UDPHandler) Handle(cx *layer4.Connection, _ layer4.Handler) error {
 		bufSize = 2
 	case "small", "part":
 		bufSize = 1
+	case "wide":
+		bufSize = 16384 // takes the largest datagram the server accepts in one read
 	}
 	buf := make([]byte, bufSize)
 	got := 0
@@ -120,6 +122,10 @@ type Scn struct {
 	K      int    `json:"k,omitempty"`
 	Script string `json:"script"`
 }
+
+// udpBufSize is the size of the buffers the UDP read loop receives into (layer4/server.go:
+// "our buffer sizes are 9000 bytes"); a datagram of exactly this size is the largest accepted.
+const udpBufSize = 9000
 
 var clients = map[byte]string{'A': "192.0.2.1:1000", 'B': "192.0.2.2:2000", 'C': "[2001:db8::3]:3000"}
 
@@ -170,6 +176,13 @@ func execute(x *explore.Exec, sc *Scn) *result {
 				vsched.Point("fail")
 				H.add(event{Kind: "socket-fail"})
 				pc.Fail(errors.New("socket failed"))
+			case 'L': // client A sends a datagram exactly as large as the server's receive buffer
+				d := fmt.Sprintf("A%c", "0123456789abcdefghijklmnopqrstuvwxyz"[seq['A']]) + strings.Repeat("L", udpBufSize-2)
+				seq['A']++
+				res.arrivals = append(res.arrivals, d)
+				vsched.Point("inject large")
+				H.add(event{Kind: "arrive", Data: d})
+				pc.Inject(vnet.Datagram{Data: []byte(d), Addr: hm.MustUDPAddr(clients['A'])})
 			default:
 				d := fmt.Sprintf("%c%c", c, "0123456789abcdefghijklmnopqrstuvwxyz"[seq[c]]) // always 2 bytes
 				seq[c]++
@@ -195,7 +208,11 @@ func check(x *explore.Exec, sc *Scn, r *result) {
 	desc := func() string {
 		var sb strings.Builder
 		for _, e := range r.events {
-			fmt.Fprintf(&sb, "%s(a%d %s%s%s) ", e.Kind, e.Assoc, e.Data, e.Addr, e.Err)
+			d := e.Data
+			if len(d) > 24 {
+				d = fmt.Sprintf("%s...(%d bytes)", d[:8], len(d))
+			}
+			fmt.Fprintf(&sb, "%s(a%d %s%s%s) ", e.Kind, e.Assoc, d, e.Addr, e.Err)
 		}
 		return fmt.Sprintf("mode=%s k=%d script=%q events: %s| blocked=%v", sc.Mode, sc.K, sc.Script, sb.String(), r.out.Blocked)
 	}
@@ -335,6 +352,15 @@ func check(x *explore.Exec, sc *Scn, r *result) {
 			x.Fail("reply-to-wrong-client", "association a%d (client %s) replied %q to %s; %s", id, client[id], s.Data, s.Addr, desc())
 		}
 	}
+	// every datagram up to the receive-buffer size reaches its client's connection (wide mode:
+	// a handler that reads everything, at most three datagrams, so no queue overflows)
+	if sc.Mode == "wide" && len(r.out.Panics) == 0 && !r.out.Horizon && x.Used(explore.KTime) == 0 {
+		for _, d := range r.arrivals {
+			if _, ok := deliveredTo[d]; !ok {
+				x.Fail("datagram-never-delivered", "a %d-byte datagram (%q...) never reached its client's connection although no queue was full; %s", len(d), d[:2], desc())
+			}
+		}
+	}
 	// after a client's association has ended and the system has gone quiet, a later
 	// datagram from that client must be served by a fresh association (handlers of the
 	// echo kind read everything they are given)
@@ -418,6 +444,14 @@ func scenarios(tier string, yield func(any) bool) {
 		// as the datagram part of C08: two clients whose datagrams are in flight together
 		modes = []Scn{{Mode: "echo"}, {Mode: "readk", K: 2}}
 		scripts = []string{"AB", "ABA", "ABAB", "AAB"}
+	}
+	if os.Getenv("VERIF_C09_SUBSET") == "" {
+		// datagrams of every size up to the receive buffer reach the connection: the largest
+		for _, s := range []string{"L", "LA", "AL", "ALA"} {
+			if !yield(&Scn{Mode: "wide", Script: s}) {
+				return
+			}
+		}
 	}
 	if os.Getenv("VERIF_C09_SUBSET") != "stream" {
 		// a handler that leaves a datagram partly read and closes, then other clients' datagrams
